@@ -44,6 +44,19 @@ def run(cmd, cwd=None, env=None, timeout=None, input=None):
     return p.returncode, p.stdout, time.time() - t0
 
 
+def lake(args, timeout=None):
+    """Run lake in /verif/lean under a lock (concurrent lake builds in one workspace race)."""
+    import fcntl
+    os.makedirs(os.path.join(LEAN, ".lake"), exist_ok=True)
+    with open(os.path.join(LEAN, ".lake", "verif.lock"), "w") as lk:
+        fcntl.flock(lk, fcntl.LOCK_EX)
+        return run(["lake"] + args, cwd=LEAN, timeout=timeout)
+
+
+def model_targets(cfg):
+    return ["om_" + m for m in cfg.get("models", [])]
+
+
 def load_config(pid):
     path = os.path.join(VERIF, "checks", pid + ".py")
     spec = importlib.util.spec_from_file_location("cfg_" + pid, path)
@@ -107,7 +120,7 @@ def lean_sources_for(pid, cfg):
 def prove(pid, cfg, tier, state):
     """lake build of the theorem module + executable; then axiom audit."""
     mod = "OasisProofs.Props." + pid
-    rc, out, dt = run(["lake", "build", mod, "oasis_model"], cwd=LEAN, timeout=3600)
+    rc, out, dt = lake(["build", mod] + model_targets(cfg), timeout=3600)
     state["lake_build_s"] = round(dt, 1)
     if rc != 0:
         m = re.findall(r"error: ([^\n]*)", out)
@@ -131,7 +144,7 @@ def prove(pid, cfg, tier, state):
         f.write("import %s\n" % mod)
         for n in names:
             f.write("#print axioms %s\n" % n)
-    rc, out, _ = run(["lake", "env", "lean", audit], cwd=LEAN, timeout=1800)
+    rc, out, _ = lake(["env", "lean", audit], timeout=1800)
     if rc != 0:
         return False, {"stage": "audit", "what": "#print axioms failed", "log_tail": out[-2000:]}
     axioms = {}
@@ -143,7 +156,7 @@ def prove(pid, cfg, tier, state):
     if offending or missing:
         return False, {"stage": "audit", "what": "axiom audit", "offending": offending, "missing": missing}
     if tier == "thorough" and cfg.get("leanchecker", True):
-        rc, out, dt = run(["lake", "env", "leanchecker", mod], cwd=LEAN, timeout=3600)
+        rc, out, dt = lake(["env", "leanchecker", mod], timeout=3600)
         state["leanchecker_s"] = round(dt, 1)
         state["leanchecker_rc"] = rc
         if rc != 0:
@@ -175,7 +188,7 @@ def run_driver(pid, d, tier, seed, state, extra=None):
     corpus = os.path.join(VERIF, "corpus", pid)
     if d.get("corpus", True) and os.path.isdir(corpus) and not extra:
         args += ["-corpus", corpus]
-    env = dict(GOENV, VERIF_MODEL=os.path.join(LEAN, ".lake", "build", "bin", "oasis_model"),
+    env = dict(GOENV, VERIF_MODEL_DIR=os.path.join(LEAN, ".lake", "build", "bin"), VERIF_TIER=tier,
                VERIF_SCRATCH=scratch, TMPDIR=scratch)
     try:
         rc, out, dt = run(args, cwd=HARNESS, env=env, timeout=d.get("timeout_" + tier, 3000))
@@ -251,7 +264,7 @@ def main(argv):
             return 0
         tmp = os.path.join(os.environ.get("TMPDIR", "/tmp"), "verif-replay-%d.txt" % os.getpid())
         open(tmp, "w").write("\n".join(rp["case"]) + "\n")
-        run(["lake", "build", "oasis_model"], cwd=LEAN)
+        lake(["build"] + model_targets(cfg))
         res, err = run_driver(pid, d, tier, seed, state, extra=["-replay", tmp])
         os.remove(tmp)
         if err:
@@ -271,9 +284,9 @@ def main(argv):
         if not ok:
             broken.append(err)
     # The drivers need the model executable; if the theorem module broke, still try to build it.
-    if broken:
-        run(["lake", "build", "oasis_model"], cwd=LEAN)
-    have_model = os.path.exists(os.path.join(LEAN, ".lake", "build", "bin", "oasis_model"))
+    if broken and model_targets(cfg):
+        lake(["build"] + model_targets(cfg))
+    have_model = all(os.path.exists(os.path.join(LEAN, ".lake", "build", "bin", t)) for t in model_targets(cfg))
 
     for d in cfg.get("drivers", []):
         if not have_model and d.get("needs_model", True):
